@@ -42,12 +42,20 @@ Inductive pshape :=
   | PRegIMemOffset (dest_imem : bool) (allowed : option (list emode))
   | PEMemIMemOffset (dest_int : bool).
 
+(* decoder view of a table entry (no strings: this is what the extracted model carries) *)
+Record dentry := {
+  d_opc : N; d_cls : icls; d_optname : option optname; d_cond : option cond; d_rev : bool; d_ops : list pshape
+}.
+
 Record pentry := {
   p_opc : N; p_cls : icls; p_optname : option optname; p_cond : option cond;
   p_rev : bool; p_ops : list pshape;
   p_clsname : string;              (* class __name__, for C17's comparison with the Rust `name` *)
   p_optname_s : option string      (* Opts.name as written *)
 }.
+
+Definition strip (p : pentry) : dentry :=
+  {| d_opc := p_opc p; d_cls := p_cls p; d_optname := p_optname p; d_cond := p_cond p; d_rev := p_rev p; d_ops := p_ops p |}.
 
 (* Rust side (sc62015/core/src/llama/opcodes.rs) *)
 Inductive rkind :=
